@@ -165,6 +165,19 @@ func init() {
 			return nil
 		})
 
+		// ---- ringbuf metrics: the prometheus objects are replaced by the harness' inert stub types
+		// (vCounter / vGauge / vObserver of harness/c48), exactly what the harness installs itself.
+		n["github.com/scionproto/scion/private/ringbuf/internal/metrics.NewRingbuf"] = func(x *Exec, fr *frame, a []Value) Value {
+			hp := x.eng.pkgs["github.com/scionproto/scion/private/ringbuf"]
+			if hp == nil || hp.Type("vCounter") == nil || hp.Type("vGauge") == nil || hp.Type("vObserver") == nil {
+				x.unsupported("metrics.NewRingbuf: harness stub types not loaded")
+			}
+			cnt := func() Value { return Iface{t: hp.Type("vCounter").Type(), v: Struct{Iface{}}} }
+			gau := func() Value { return Iface{t: hp.Type("vGauge").Type(), v: Struct{Iface{}}} }
+			obs := func() Value { return Iface{t: hp.Type("vObserver").Type(), v: Struct{}} }
+			return Struct{cnt(), cnt(), cnt(), cnt(), obs(), obs(), gau(), gau()}
+		}
+
 		// ---- clock
 		n["time.Now"] = func(x *Exec, fr *frame, a []Value) Value {
 			x.noSpec("time.Now") // a clock reading is an input: never inside a speculated (if-converted) arm
